@@ -5,6 +5,7 @@ import (
 	"flag"
 	"fmt"
 	"os"
+	"regexp"
 	"runtime"
 	"sort"
 	"strconv"
@@ -34,23 +35,24 @@ type decOut struct {
 }
 
 type output struct {
-	Entry        string                   `json:"entry"`
-	Args         []int64                  `json:"args"`
-	Failures     []failureOut             `json:"failures"`
-	KnownHits    map[string][]failureOut  `json:"known_hits"`
-	Inconclusive []string                 `json:"inconclusive"`
-	Reach        map[string]int           `json:"reach"`
-	Samples      []map[string]interface{} `json:"samples"`
-	Stats        map[string]interface{}   `json:"stats"`
-	Funcs        []string                 `json:"functions_encoded"`
-	DepFuncs     []string                 `json:"dependency_functions_executed"`
-	Stubs        map[string]string        `json:"stubs"`
-	Solver       map[string]interface{}   `json:"solver"`
-	Observations []string                 `json:"observations,omitempty"`
-	ObsPaths     [][]string               `json:"observation_paths,omitempty"`
-	Error        string                   `json:"error,omitempty"`
-	WallS        float64                  `json:"wall_s"`
-	LoadS        float64                  `json:"load_s"`
+	Entry        string                    `json:"entry"`
+	Args         []int64                   `json:"args"`
+	Failures     []failureOut              `json:"failures"`
+	KnownHits    map[string][]failureOut   `json:"known_hits"`
+	KnownIDs     map[string]map[string]int `json:"known_ids"`
+	Inconclusive []string                  `json:"inconclusive"`
+	Reach        map[string]int            `json:"reach"`
+	Samples      []map[string]interface{}  `json:"samples"`
+	Stats        map[string]interface{}    `json:"stats"`
+	Funcs        []string                  `json:"functions_encoded"`
+	DepFuncs     []string                  `json:"dependency_functions_executed"`
+	Stubs        map[string]string         `json:"stubs"`
+	Solver       map[string]interface{}    `json:"solver"`
+	Observations []string                  `json:"observations,omitempty"`
+	ObsPaths     [][]string                `json:"observation_paths,omitempty"`
+	Error        string                    `json:"error,omitempty"`
+	WallS        float64                   `json:"wall_s"`
+	LoadS        float64                   `json:"load_s"`
 }
 
 func main() {
@@ -71,7 +73,7 @@ func main() {
 		maxInstr = flag.Int("max-instr", 2000000, "instruction budget per path")
 		maxTrans = flag.Int("max-trans", 5000, "transition budget per path")
 		maxSt    = flag.Int64("max-states", 20000000, "scheduling state budget")
-		maxFail  = flag.Int("max-failures", 40, "stop after this many distinct failures")
+		maxFail  = flag.Int("max-failures", 12, "stop after this many distinct failures")
 		seed     = flag.Int64("seed", 0, "exploration order seed")
 		wall     = flag.Duration("wall", 0, "wall clock budget")
 		open     = flag.String("open", "", "comma separated open known-finding ids")
@@ -81,6 +83,7 @@ func main() {
 		trace    = flag.Bool("trace", false, "print vTrace output")
 		samples  = flag.Int("samples", 3, "sample paths to record")
 		nopor    = flag.Bool("nopor", false, "disable the persistent-set reduction")
+		sigFile  = flag.String("known-sigs", "", "json file: [{id, blocked:[regex], detail:regex, kinds:[..]}] signatures of open known findings")
 	)
 	flag.Parse()
 	t0 := time.Now()
@@ -107,6 +110,38 @@ func main() {
 		Trace:           *trace,
 		SamplePaths:     *samples,
 		NoPOR:           *nopor,
+	}
+	if *sigFile != "" {
+		b, err := os.ReadFile(*sigFile)
+		if err != nil {
+			fmt.Fprintln(os.Stderr, "known-sigs:", err)
+			os.Exit(2)
+		}
+		var raw []struct {
+			ID       string   `json:"id"`
+			Blocked  []string `json:"blocked"`
+			Detail   string   `json:"detail"`
+			Kinds    []string `json:"kinds"`
+			IDs      []string `json:"ids"`
+			Requires []string `json:"requires"`
+		}
+		if err := json.Unmarshal(b, &raw); err != nil {
+			fmt.Fprintln(os.Stderr, "known-sigs:", err)
+			os.Exit(2)
+		}
+		for _, r := range raw {
+			ks := symgo.KnownSig{ID: r.ID, Kinds: map[string]bool{}, IDs: r.IDs, Requires: r.Requires}
+			for _, x := range r.Blocked {
+				ks.Blocked = append(ks.Blocked, regexp.MustCompile(x))
+			}
+			if r.Detail != "" {
+				ks.Detail = regexp.MustCompile(r.Detail)
+			}
+			for _, k := range r.Kinds {
+				ks.Kinds[k] = true
+			}
+			cfg.KnownSigs = append(cfg.KnownSigs, ks)
+		}
 	}
 	if *diff != "" {
 		cfg.DiffSolvers = strings.Split(*diff, ",")
@@ -169,6 +204,7 @@ func main() {
 	for _, f := range res.Failures {
 		out.Failures = append(out.Failures, conv(f))
 	}
+	out.KnownIDs = res.KnownIDs
 	for k, fs := range res.KnownHits {
 		for _, f := range fs {
 			out.KnownHits[k] = append(out.KnownHits[k], conv(f))
